@@ -2,8 +2,8 @@
 per-leaf renderings go into the Coq model (bit 1: assembled query string == implementation's);
 the implementation's query string is lexed, its atoms are decoded and identified with the reference
 predicates, and the result is parsed - all inside Coq - and compared, for all truth assignments, with
-the reference meaning of the rule built here from the detection items and the generated condition
-expression (bit 2)."""
+the reference meaning of the rule (Spec/Ref.v, computed in Coq from the detection items and the generated
+condition expression encoded here) (bit 2)."""
 import itertools, json, random, re
 from vlib.core import Property, Suite, cstr, clist, cbool, copt, cnat
 
@@ -139,19 +139,36 @@ def gen_struct(tier, rng):
     # selector patterns against names in which the pattern's fixed prefix and suffix overlap
     fixed = [(["sel", "sel_x", "sel_a_x", "other"], ["and", [["id", "other"], ["not", ["sel", q, pat]]]])
              for q in ("1", "all") for pat in ("sel_*_x", "sel*l", "sel_*x", "s*l*")]
+    # values of different kinds for ONE field, linked on condition level, on backends that fold such links into in-lists: only
+    # plain strings and numbers may be folded (case-sensitive strings, timestamp parts, regular expressions ... must stay out)
+    mixed = []
+    for link in ("or", "and"):
+        for m1 in ("", "cased", "minute", "contains", "re", "gt", "exists", "neq", "fieldref", "cased|contains"):
+            for m2 in ("", "cased", "minute"):
+                d1 = {"f" + ("|" + m1 if m1 else ""): gen_value(rng, m1) if m1 not in ("", "cased") else "Root"}
+                d2 = {"f" + ("|" + m2 if m2 else ""): gen_value(rng, m2) if m2 not in ("", "cased") else "admin"}
+                mixed.append(({"sel": d1, "sel2": d2, "other": {"f": 3}}, [link, [["id", "sel"], ["id", "sel2"], ["id", "other"]]]))
     for i in range(n):
+        dets = None
         if i < len(fixed):
             names, c0 = fixed[i]
+        elif i < len(fixed) + len(mixed):
+            dets, c0 = mixed[i - len(fixed)]
+            names = list(dets)
         else:
             names = rng.sample(NAMES, rng.randint(1, 4))
             c0 = None
-        dets = {nm: gen_detection(rng) for nm in names}
+        if dets is None:
+            dets = {nm: gen_detection(rng) for nm in names}
         conds = [c0 if c0 is not None else gen_expr(rng, names, rng.choice([0, 1, 2, 2, 3]))]
         if rng.random() < 0.15:
             conds.append(gen_expr(rng, names, 2))
         rule = {"title": "t", "logsource": {"category": "c"},
                 "detection": dict(dets, condition=[spell(c) for c in conds] if len(conds) > 1 else spell(conds[0]))}
-        out.append({"k": gen_config(rng), "rule": rule, "exprs": conds})
+        k = gen_config(rng)
+        if len(fixed) <= i < len(fixed) + len(mixed):
+            k.update(or_in=True, and_in=True)
+        out.append({"k": k, "rule": rule, "exprs": conds})
     return out
 
 
@@ -367,6 +384,62 @@ def c_key(t):
     return None
 
 
+def c_rval(v):
+    """a value of a detection item (as serialised by impl/c01.py) -> Spec.Ref.rval; None = no reference predicate"""
+    t = v[0]
+    if t == "exp":
+        xs = [c_rval(x) for x in v[1]]
+        return None if any(x is None for x in xs) else "RExp %s" % clist("(%s)" % x for x in xs)
+    if t in ("str", "cstr"):
+        return "RStr %s %s" % (cbool(t == "cstr"), c_items(v[1]))
+    if t == "num":
+        return "RTok %s" % cstr(str(v[1]))
+    if t == "bool":
+        return "RTok %s" % cstr("true" if v[1] else "false")
+    if t == "null":
+        return "RNull"
+    if t == "exists":
+        return "RExists %s" % cbool(v[1])
+    if t == "re":
+        fl = set(v[2])
+        return "RRe %s %s %s %s" % (cstr(v[1]), cbool("i" in fl), cbool("m" in fl), cbool("s" in fl))
+    if t == "cidr":
+        return "RCidr %s %s" % (cstr(v[1]), clist(c_items(p) for p in v[2]))
+    if t == "cmp":
+        return "RCmp %s %s" % (CMPOPS[v[1]], cstr(str(v[2])))
+    if t == "cmp_ts":
+        return "RCmpTs %s %s %s" % (CMPOPS[v[1]], cstr(v[2]), cstr(str(v[3])))
+    if t == "tspart":
+        return "RTs %s %s" % (cstr(v[1]), cstr(str(v[2])))
+    if t == "fieldref":
+        return "RFieldRef %s %s %s" % (cstr(v[1]), cbool(v[2]), cbool(v[3]))
+    if t == "qx":
+        return "RQx %s" % cstr(v[1])
+    return None
+
+
+def c_rdet(d):
+    bop = {"and": "BAnd", "or": "BOr"}
+    if "det" in d:
+        xs = [c_rdet(x) for x in d["det"]]
+        return None if any(x is None for x in xs) else "RDets %s %s" % (bop[d["link"]], clist("(%s)" % x for x in xs))
+    vs = [c_rval(v) for v in d["values"]]
+    if any(x is None for x in vs):
+        return None
+    return "RItem %s %s %s %s" % (cstr(d["field"] if d["field"] is not None else "_"), cbool(d["neg"]), bop[d["vlink"]],
+                                  clist("(%s)" % x for x in vs))
+
+
+def c_rexpr(e):
+    if e[0] == "id":
+        return "(EId %s)" % cstr(e[1])
+    if e[0] == "sel":
+        return "(ESel %s %s)" % (cbool(e[1] == "all"), cstr(e[2]))
+    if e[0] == "not":
+        return "(ENot %s)" % c_rexpr(e[1])
+    return "(EBin %s %s)" % ("BAnd" if e[0] == "and" else "BOr", clist(c_rexpr(a) for a in e[1]))
+
+
 def c_keys(ids):
     out = [None] * len(ids)
     for t, i in ids.items():
@@ -387,7 +460,7 @@ def expand_cases(case, r):
         ref = expr_ref(ex, r["dets"], case["k"])
         if ref is None:
             continue
-        out.append((cnd, ref))
+        out.append((cnd, ref, ex))
     return out
 
 
@@ -457,23 +530,25 @@ def struct_to_coq(case, r):
     items = expand_cases(case, r)
     if not items:
         return None
-    cnd, ref = items[case.get("ci", 0)] if case.get("ci", 0) < len(items) else items[0]
+    cnd, ref, ex = items[case.get("ci", 0)] if case.get("ci", 0) < len(items) else items[0]
     cnd, _ = resolve_forced(cnd)
+    # the reference meaning itself is computed inside Coq (Spec/Ref.v) from the detections and the expression; the Python
+    # copy (expr_ref) only decides which cases are sent: defined meaning, at most 9 distinct predicates
     ids = {}
-    cref = c_ref(ref, ids)
+    c_ref(ref, ids)
     if len(ids) > 9:
         return None
-    keys = c_keys(ids)
-    if keys is None:
+    dets = [(n, c_rdet(d)) for n, d in r["dets"].items()]
+    if any(d is None for _, d in dets):
         return None
     k = case["k"]
     return ("{| sc_K := %s; sc_S := %s; sc_tree := %s; sc_atexts := %s; sc_ftexts := %s; sc_vtexts := %s; sc_query := %s; "
-            "sc_keys := %s; sc_ref := %s; sc_natoms := %d%%nat; sc_pylex := None |}" % (
+            "sc_native_cidr := %s; sc_dets := %s; sc_expr := %s |}" % (
                 c_cfg(k), c_syntax(k), c_tree(cnd["tree"]),
                 clist("(%d%%nat, (%s, %s))" % (i, cstr(a), cstr(b)) for i, a, b in cnd["atexts"]),
                 clist("(%d%%nat, %s)" % (i, cstr(a)) for i, a in cnd["ftexts"]),
                 clist("(%d%%nat, %s)" % (i, cstr(a)) for i, a in cnd["vtexts"]),
-                cstr(cnd["query"]), keys, cref, len(ids)))
+                cstr(cnd["query"]), cbool(k["cidr_native"]), clist("(%s, %s)" % (cstr(n), d) for n, d in dets), c_rexpr(ex)))
 
 
 def tree_unsafe_noteq(t, under_not=False):
@@ -506,7 +581,7 @@ def known_struct(case, r):
     items = expand_cases(case, r)
     if not items:
         return None
-    cnd, _ = items[case.get("ci", 0)] if case.get("ci", 0) < len(items) else items[0]
+    cnd, _, _ = items[case.get("ci", 0)] if case.get("ci", 0) < len(items) else items[0]
     if case["k"]["not_eq"] and tree_unsafe_noteq(cnd["tree"]):
         return "D5-not-as-not-equals-unsound-negation"
     if case["k"]["not_eq"] and resolve_forced(cnd)[1]:
@@ -643,7 +718,7 @@ def strop_to_coq(c, r):
                 dec = f"({op}, {items})"
     return f"({K}, {cstr(c['s'])}, {copt(dec)})"
 
-REQ = ["Base.Chars", "Model.Backend", "Spec.Target", "Spec.Lex", "Spec.Items", "Model.Leaf", "Spec.Query", "Run.C01run"]
+REQ = ["Base.Chars", "Model.Backend", "Spec.Target", "Spec.Lex", "Spec.Items", "Model.Leaf", "Spec.Query", "Spec.Ref", "Run.C01run"]
 from props.c01_leaf import (gen_leaf, leaf_to_coq, stratum_leaf, mutate_leaf, known_leaf, py_oracle_leaf, gen_inlist,
                              inlist_to_coq, stratum_inlist)
 REQ_LEAF = ["Base.Chars", "Base.Outcome", "Model.SString", "Model.StrOp", "Model.FieldName", "Model.Leaf", "Spec.Atom", "Run.C01leaf"]
@@ -670,9 +745,10 @@ PROPERTY = Property(
     assumptions=["suite struct takes the text of each leaf from the implementation (the leaf renderers themselves are modelled in "
                  "suite leaf); the implementation's query is read inside Coq - Spec/Lex.v splits it (C01_lex_show, C01_conv_separates, "
                  "C01_leaf_lexical), Spec/Atom.v reads every atom (C01_leaf_faithful), Spec/Query.v identifies an atom with a reference "
-                 "predicate by field, match kind and pattern up to '**' = '*', Spec/Target.v parses (C01_structure); trusted Python on "
-                 "the specification side: the reference-meaning builder (props/c01.py value_ref / det_ref / expr_ref: detection items "
-                 "after modifiers + the generating expression -> boolean combination of reference predicates) and the encoders",
+                 "predicate by field, match kind and pattern up to '**' = '*', Spec/Target.v parses (C01_structure); the reference "
+                 "meaning is computed in Coq (Spec/Ref.v: detection items after modifiers + the condition as written -> boolean "
+                 "combination of reference predicates; C01_ref_numbering, C01_ref_valuations); trusted Python on the specification "
+                 "side: the term encoders, and a copy of expr_ref that only selects which cases are sent",
                  "oracles of the leaf model: match positions of field_escape_pattern, the field_quote_pattern / str_quote_pattern "
                  "decisions (computed with re in the harness), str() of numbers and networks, Python's \\w on non-ASCII characters",
                  "leaf suite, not modelled: SigmaQueryExpression values, placeholders inside regular expressions, deferred "
